@@ -303,6 +303,7 @@ class SimSemLock:
                 raise ValueError("semaphore or lock released too many times")
         w.sched_point()
         k.value += 1
+        w.sem_release_log.append((w.steps, k.name, w.cur.tid))
         me = (w.cur.proc.pid, w.cur.name)
         if me in k.holders:
             k.holders.remove(me)
